@@ -57,6 +57,30 @@ type c11In struct {
 	Sizes      map[string]int64 `json:"sizes"`   // up4: P4Info size overrides
 	WatchdogS  int              `json:"watchdog_s"`
 	DropConnMs []int            `json:"drop_conn_ms"` // up4: close the plug-in's P4Runtime connection at these times (ms after start)
+	Script     []c11Step        `json:"script"`       // a fixed choreography instead of free-running phases
+}
+
+// c11Step: one step of a choreographed scenario (up4 world: the P4Runtime server can hold Writes back)
+//
+//	run       events of one association, in this goroutine
+//	start     events of one association in a goroutine called Name
+//	hold      arm the server: Write RPCs with an update of Table / Type are held (Count of them, at most MaxMs each)
+//	wait_held wait until N Writes have been caught by holds (at most Ms)
+//	wait_done wait until goroutine Name has finished (at most Ms; going on without it is not an error)
+//	release   let the held Writes go on
+//	join      wait for every started goroutine
+//	snap      dump datapath, stores and pools
+type c11Step struct {
+	Op     string     `json:"op"`
+	Conn   int        `json:"conn"`
+	Events []c11Event `json:"events"`
+	Name   string     `json:"name"`
+	Table  string     `json:"table"`
+	Type   string     `json:"type"`
+	Count  int        `json:"count"`
+	MaxMs  int        `json:"max_ms"`
+	N      int        `json:"n"`
+	Ms     int        `json:"ms"`
 }
 
 type c11World struct {
@@ -281,6 +305,72 @@ func (cw *c11World) snapshot(final bool) map[string]interface{} {
 	return s
 }
 
+func (cw *c11World) runScript(steps []c11Step, record func(int, map[string]interface{}), snaps *[]interface{}) []interface{} {
+	trace := []interface{}{}
+	done := map[string]chan struct{}{}
+	var wg sync.WaitGroup
+	play := func(id int, evs []c11Event, step int) {
+		for _, ev := range evs {
+			t0 := time.Now()
+			o := cw.do(id, ev)
+			o["ms"] = time.Since(t0).Milliseconds()
+			o["phase"] = step
+			record(id, o)
+			if _, dead := o["panic"]; dead {
+				return
+			}
+		}
+	}
+	for i, st := range steps {
+		t := map[string]interface{}{"step": i, "op": st.Op}
+		switch st.Op {
+		case "run":
+			play(st.Conn, st.Events, i)
+		case "start":
+			ch := make(chan struct{})
+			done[st.Name] = ch
+			wg.Add(1)
+			go func(st c11Step, i int) {
+				defer wg.Done()
+				defer close(ch)
+				play(st.Conn, st.Events, i)
+			}(st, i)
+		case "hold":
+			if cw.srv4 != nil {
+				cw.srv4.HoldWrites(vp4Hold{Table: st.Table, Type: st.Type, Count: st.Count, MaxMs: st.MaxMs})
+			}
+		case "wait_held":
+			if cw.srv4 != nil {
+				t["held"] = cw.srv4.WaitHeld(st.N, st.Ms)
+			}
+		case "wait_done":
+			select {
+			case <-done[st.Name]:
+				t["finished"] = true
+			case <-time.After(time.Duration(st.Ms) * time.Millisecond):
+				t["finished"] = false
+			}
+		case "release":
+			if cw.srv4 != nil {
+				t["held_total"] = cw.srv4.HeldTotal()
+				cw.srv4.ReleaseHolds()
+			}
+		case "join":
+			fin := make(chan struct{})
+			go func() { wg.Wait(); close(fin) }()
+			select {
+			case <-fin:
+			case <-time.After(120 * time.Second):
+				t["hung"] = true
+			}
+		case "snap":
+			*snaps = append(*snaps, cw.snapshot(false))
+		}
+		trace = append(trace, t)
+	}
+	return trace
+}
+
 func c11Run(in c11In) (interface{}, error) {
 	// the logger serialises its writers: every Info line is a lock hand-over between goroutines, i.e. an
 	// incidental happens-before edge that hides races from the detector (and costs time)
@@ -352,6 +442,16 @@ func c11Run(in c11In) (interface{}, error) {
 				}
 			}
 		}()
+	}
+	if len(in.Script) > 0 {
+		record := func(id int, o map[string]interface{}) {
+			omu.Lock()
+			obs[id] = append(obs[id], o)
+			omu.Unlock()
+		}
+		trace := cw.runScript(in.Script, record, &snaps)
+		out["script_trace"] = trace
+		nph = 0
 	}
 	hung := false
 phases:
